@@ -384,11 +384,26 @@ func (fr *frame) eval1(v ssa.Value) Val {
 				return Val{K: KInt, I: big.NewInt(int64(m.S[i])), Dep: m.Dep || k.Dep}
 			}
 		}
+		if present, known := fr.mapHas(m.S, k); m.K == KPtr && known {
+			if mt, _ := x.X.Type().Underlying().(*types.Map); mt != nil {
+				v := zeroVal(mt.Elem())
+				if present {
+					v = fr.load(m.S+"["+k.String()+"]", mt.Elem())
+				}
+				if k.Dep {
+					v.Dep = true
+				}
+				if x.CommaOk {
+					return Val{K: KTuple, Elems: []Val{v, {K: KBool, B: present, Dep: k.Dep}}}
+				}
+				return v
+			}
+		}
 		if m.K == KPtr && strings.Contains(m.S, "#") && (k.K == KStr || k.K == KInt) {
 			mt, _ := x.X.Type().Underlying().(*types.Map)
 			if mt != nil {
 				path := m.S + "[" + k.String() + "]"
-				_, present := fr.cur.get(path)
+				pc, present := fr.cur.get(path)
 				_, wild := fr.cur.get(m.S + "[*]")
 				v := fr.load(path, mt.Elem())
 				if k.Dep {
@@ -398,6 +413,8 @@ func (fr *frame) eval1(v ssa.Value) Val {
 					okv := top
 					if !present && !wild {
 						okv = boolVal(false)
+					} else if present && !pc.Maybe && !fr.multi(path) {
+						okv = boolVal(true)
 					}
 					return Val{K: KTuple, Elems: []Val{v, okv}}
 				}
@@ -419,7 +436,15 @@ func (fr *frame) eval1(v ssa.Value) Val {
 			return Val{K: KTuple, Elems: []Val{boolVal(false), top, top}}
 		}
 		if rg, isRange := x.Iter.(*ssa.Range); isRange && !x.IsString && it.K == KPtr {
-			if _, isMap := rg.X.Type().Underlying().(*types.Map); isMap {
+			if mt, isMap := rg.X.Type().Underlying().(*types.Map); isMap {
+				if keys, declared := fr.in.MapKeys[it.S]; declared {
+					if len(keys) == 0 {
+						return Val{K: KTuple, Elems: []Val{boolVal(false), top, top}}
+					}
+					if fr.pathMode {
+						return fr.nextKey(x, it.S, mt.Elem())
+					}
+				}
 				if n, ok := fr.in.PathBind["len("+it.S+")"]; ok && n.K == KInt && n.I.Sign() == 0 {
 					return Val{K: KTuple, Elems: []Val{boolVal(false), top, top}}
 				}
@@ -967,6 +992,9 @@ func (fr *frame) builtin(name string, c *ssa.Call, args []Val) Val {
 		case KPtr:
 			if v, ok := fr.in.PathBind["len("+a.S+")"]; ok {
 				return v
+			}
+			if keys, ok := fr.in.MapKeys[a.S]; ok {
+				return int64Val(int64(len(keys)))
 			}
 			if fr.in.Symbolic && !strings.Contains(a.S, "#") {
 				return symVal("len("+a.S+")", a.Dep)
